@@ -686,6 +686,8 @@ impl Parser {
         self.state = EngineState::Default;
         buf.reset_terminal();
         caret.reset();
+        // the screen is kept, home is the first visible line
+        caret.pos = buf.upper_left_position();
     }
 
     /// Sequence: `CSI Ps1 ; Ps2 * r`</p>
